@@ -8,6 +8,7 @@ import (
 	"io"
 	"net/http"
 	"sync"
+	"sync/atomic"
 	"time"
 
 	"github.com/thushan/olla/internal/adapter/translator"
@@ -504,6 +505,18 @@ func (a *Application) executeTranslatedStreamingRequest(
 		return fmt.Errorf("request cancelled while waiting for backend headers: %w", ctx.Err())
 	}
 
+	// The proxy goroutine also signals headersReady when it gave up without ever
+	// getting a response (every endpoint refused, reset, ...). There is nothing to
+	// translate then: report the failure instead of an empty but successful stream.
+	if !streamRecorder.responseStarted.Load() {
+		pipeReader.Close()
+		proxyErr := <-proxyErrChan
+		if proxyErr == nil {
+			proxyErr = fmt.Errorf("backend returned no response")
+		}
+		return fmt.Errorf("proxy request failed: %w", proxyErr)
+	}
+
 	// handle backend errors before starting sse stream
 	if streamRecorder.status >= 400 {
 		a.handleStreamingBackendError(w, pipeReader, streamRecorder, proxyErrChan, pr, trans)
@@ -847,11 +860,12 @@ func (r *responseRecorder) WriteHeader(statusCode int) {
 
 // captures headers while forwarding body to pipe (for streaming)
 type streamingResponseRecorder struct {
-	writer       io.Writer
-	headers      http.Header
-	headersReady chan struct{}
-	closeOnce    sync.Once
-	status       int
+	writer          io.Writer
+	headers         http.Header
+	headersReady    chan struct{}
+	closeOnce       sync.Once
+	status          int
+	responseStarted atomic.Bool // set once the proxy wrote a status or body bytes
 }
 
 func newStreamingResponseRecorder(w io.Writer) *streamingResponseRecorder {
@@ -874,12 +888,14 @@ func (r *streamingResponseRecorder) ensureHeadersReady() {
 }
 
 func (r *streamingResponseRecorder) Write(data []byte) (int, error) {
+	r.responseStarted.Store(true)
 	r.ensureHeadersReady()
 	return r.writer.Write(data)
 }
 
 func (r *streamingResponseRecorder) WriteHeader(statusCode int) {
 	r.status = statusCode // Capture status code to detect backend errors
+	r.responseStarted.Store(true)
 	r.ensureHeadersReady()
 	// Don't propagate the status write for streaming; just mark headers sent.
 }
